@@ -53,13 +53,23 @@ Definition near_tie (c : rcase) : bool :=
   | None => false
   end.
 
+(** an attempt that ends within the margin of the horizon: "giving up" or "will retry" may
+    both be what the code decided (it reads the clock again after the call) *)
+Definition near_horizon (c : rcase) : bool :=
+  existsb (fun a => Z.abs (o_end a - r_maxd c) <? margin) (r_atts c).
+
+(** observed result 7 = an error that is neither a cancellation nor ErrNoRetry: what the loop
+    returns when it gives up at the horizon (model results 4, 5) *)
+Definition res_match (r : result) (obs : Z) : bool :=
+  (result_code r =? obs) || ((obs =? 7) && ((result_code r =? 4) || (result_code r =? 5))).
+
 Definition retry_model_ok (c : rcase) : bool :=
   let calls := calls_of (r_iv c) 0 0 (r_atts c) in
   let calls' := if r_res c =? 3 then calls ++ [Call OOk 0 0] else calls in
   let '(atts, r, te) := do_with_retry (r_iv c) (r_maxd c) (r_cancel c) (r_pick0 c) calls' in
-  near_tie c ||
+  near_tie c || near_horizon c ||
   (forallb (fun k => (0 <=? c_late k) && (c_late k <=? late_bound)) calls &&
-   atts_eqb atts (r_atts c) && (result_code r =? r_res c) &&
+   atts_eqb atts (r_atts c) && res_match r (r_res c) &&
    (te <=? r_te c) && (r_te c <=? te + late_bound)).
 
 Fixpoint pauses_ok (iv : list Z) (k : nat) (prev_end : Z) (l : list oatt) : bool :=
@@ -84,7 +94,10 @@ Definition retry_spec_ok (c : rcase) : bool :=
    else if r_res c =? 1 then last_out l =? 3
    else if r_res c =? 2 then last_out l =? 2
    else if r_res c =? 3 then all_plain l && (match r_cancel c with Some _ => true | None => false end)
-   else if (r_res c =? 4) || (r_res c =? 5) then all_plain l && (r_maxd c <=? r_te c)
+   (* an error that does not end the retries is returned only when the loop gives up at the
+      horizon: the last attempt ended after it *)
+   else if (r_res c =? 4) || (r_res c =? 5) || (r_res c =? 7) then
+     all_plain l && negb (length l =? 0)%nat && (r_maxd c - margin <=? last_oend l)
    else false) &&
   (* cancellation is prompt *)
   match r_cancel c with
